@@ -130,6 +130,12 @@ make_shared (const scenario_t *sc, int chain)
     return ms;
 }
 
+/* Tiled canvas: when the scenario says so, slot 0 of every thread is a tile of ONE
+ * buffer (columns side by side, no gap), as in tiled rendering: distinct destinations
+ * whose pixels are neighbours in memory. */
+static arena_buf_t *canvas;
+static int canvas_fmt, canvas_tw, canvas_h, canvas_stride;
+
 static machine_t *
 make_private (machine_t *ms, int chain)
 {
@@ -186,10 +192,26 @@ execute (const scenario_t *sc, const char *property, result_t *res)
     chain_install (chain);
     ms = make_shared (sc, chain);
     baton_reset (n, sched, nsched);
+    canvas = NULL;
+    if (sc_get (sc, "canvas_tw", 0) > 0)
+    {
+	static const pixman_format_code_t cf[] = { PIXMAN_a8, PIXMAN_a8r8g8b8, PIXMAN_r5g6b5, PIXMAN_a8 };
+	int k;
+	canvas_tw = (int)sim_clamp (sc_get (sc, "canvas_tw", 0), 1, 64);
+	canvas_h = (int)sim_clamp (sc_get (sc, "canvas_h", 4), 1, 16);
+	for (k = 0; k < sim_n_formats; k++) if (sim_formats[k] == cf[sim_mod (sc_get (sc, "canvas_fmt", 0), 4)]) break;
+	canvas_fmt = k;
+	canvas_stride = ((n * canvas_tw * PIXMAN_FORMAT_BPP (sim_formats[canvas_fmt]) / 8) + 3) & ~3;
+	canvas = arena_new ((size_t)canvas_stride * canvas_h, 0, 0, 0);
+	memset (canvas->data, 0x33, (size_t)canvas_stride * canvas_h);
+    }
     for (i = 0; i < n; i++)
     {
 	memset (&t[i], 0, sizeof t[i]);
 	t[i].id = i; t[i].sc = sc; t[i].m = make_private (ms, chain); t[i].use_baton = 1;
+	if (canvas)
+	    machine_adopt_tile (t[i].m, 0, canvas_fmt, canvas_tw, canvas_h,
+				canvas->data + (size_t)i * canvas_tw * PIXMAN_FORMAT_BPP (sim_formats[canvas_fmt]) / 8, canvas_stride);
     }
     for (i = 0; i < n; i++)
 	if (pthread_create (&th[i], NULL, worker, &t[i])) { fprintf (stderr, "pxsim: pthread_create failed\n"); _exit (2); }
@@ -250,6 +272,13 @@ execute (const scenario_t *sc, const char *property, result_t *res)
 	ms = make_shared (sc, chain);
 	memset (&a, 0, sizeof a);
 	a.id = i; a.sc = sc; a.m = make_private (ms, chain); a.use_baton = 0;
+	if (sc_get (sc, "canvas_tw", 0) > 0)
+	{
+	    canvas = arena_new ((size_t)canvas_stride * canvas_h, 0, 0, 0);
+	    memset (canvas->data, 0x33, (size_t)canvas_stride * canvas_h);
+	    machine_adopt_tile (a.m, 0, canvas_fmt, canvas_tw, canvas_h,
+				canvas->data + (size_t)i * canvas_tw * PIXMAN_FORMAT_BPP (sim_formats[canvas_fmt]) / 8, canvas_stride);
+	}
 	pthread_create (&one, NULL, worker, &a);
 	pthread_join (one, NULL);
 	if (a.digest != together[i])
@@ -288,6 +317,13 @@ generate (uint64_t seed, int tier, const char *property, scenario_t *sc)
     sc_set (sc, "threads", n);
     sc_set (sc, "chain", chains[rng_n (&r, 10)]);
     sc_set (sc, "acc_every", rng_chance (&r, 1, 2) ? 0 : (int)rng_range (&r, 3, 200));
+    if (rng_chance (&r, 1, 3))
+    {
+	/* destinations are tiles of one canvas */
+	sc_set (sc, "canvas_tw", rng_range (&r, 3, 40));
+	sc_set (sc, "canvas_h", rng_range (&r, 1, 8));
+	sc_set (sc, "canvas_fmt", rng_n (&r, 4));
+    }
 
     /* shared, read-only after first use: slots SH0..SH0+3 on the main thread */
     gen_init (&g, &r, sc, 0, 0);
@@ -336,7 +372,7 @@ generate (uint64_t seed, int tier, const char *property, scenario_t *sc)
 	    if (roll < 50) gen_composite (&p, 1, src, mask, dst);
 	    else if (roll < 60) gen_fill_boxes (&p, dst, rng_chance (&r, 1, 2), 0);
 	    else if (roll < 64) gen_fill (&p, dst);
-	    else if (roll < 74) { static const int tk[] = { MOP_COMPOSITE_TRAPS, MOP_COMPOSITE_TRIS, MOP_ADD_TRAPS, MOP_ADD_TRAPEZOIDS }; gen_traps (&p, tk[rng_n (&r, 4)], src, tk[0] ? dst : 1); }
+	    else if (roll < 74) { static const int tk[] = { MOP_COMPOSITE_TRAPS, MOP_COMPOSITE_TRIS, MOP_ADD_TRAPS, MOP_ADD_TRAPEZOIDS }; gen_traps (&p, tk[rng_n (&r, 4)], src, dst); }
 	    else if (roll < 82) gen_region_op (&p);
 	    else if (roll < 90)
 	    {
